@@ -1,7 +1,9 @@
 import Perp.Spec.World
 import Perp.Props.ModelStep
 import Perp.Spec.Monitor
+import Perp.Spec.MonitorTx
 import Perp.Spec.Registry
+import Perp.Model.Fault
 import Driver.WorldParse
 
 /-!
@@ -268,6 +270,27 @@ def handleWObs (acc : Acc) (h : WHist) (kv : KV) (_line : String) : Acc × WHist
       -- fault-injected execution (harness `fault` mode): only C08 is meaningful — the injected
       -- failure must fail the whole call and leave every contract's storage and every balance as before
       let faulted := match tkv.get? "fault" with | some f => f != "none" && tkv.bool "fired" | none => false
+      -- fault-point correspondence (engine transactions): the model's instrumented dispatcher (`World.applyTxFE`, the
+      -- object of `FaultAtomic.fault_fails_tx / fault_profile`) must reach the j-th dispatched message exactly when the
+      -- implementation's j-th sub-call exists.  The harness does not count the host's transfer of attached coins
+      -- (a user's bank send), the model does: index + 1 on native calls that attach coins.
+      let acc :=
+        match (match tkv.get? "fault" with | some fj => some fj | none => tkv.get? "beyond"), tx with
+        | some fj, .engine _ =>
+          (match fj.toNat? with
+           | some j =>
+             let jm := if h.last.w.engine.cfg.native && funds.amount != 0 then j + 1 else j
+             let reached := match World.applyTxFE (some jm) h.last.w env sender funds tx with
+               | .error (_, none) => true
+               | .ok (_, none) => true
+               | _ => false
+             let acc := acc.cover s!"faultpoint:{kind}:{if reached then "reached" else "beyond-the-tree"}"
+             -- a `beyond=j` token on a plain line: the implementation's message tree ended before index j
+             let implFired := (tkv.get? "fault").isSome && tkv.bool "fired"
+             if reached == implFired then acc
+             else acc.report "DISAGREE" "C08" s!"{kind}:fault-point(sub-message {j}: model-reached={reached},impl-fired={implFired})" tline
+           | none => acc)
+        | _, _ => acc
       if faulted then
         let acc := (C08.check step).foldl (fun a tag => a.report "SPECFAIL" "C08" s!"{kind}:fault{tkv.str "fault"}:{tag}" tline) acc
         let acc := if ok then acc.report "SPECFAIL" "C08" s!"{kind}:injected-failure-swallowed(sub-message {tkv.str "fault"})" tline else acc
@@ -280,7 +303,12 @@ def handleWObs (acc : Acc) (h : WHist) (kv : KV) (_line : String) : Acc × WHist
       let preInv := obsAllInvFails h.last
       let acc :=
         if !preInv.isEmpty then acc.hypCount s!"steps:outside(pre-state:{preInv.headD ""})" else
-        let sf := Perp.Spec.Monitor.sideFails h.last.w env sender funds tx
+        -- the per-transaction side condition `SideOKTx` (`CapstoneTx`: `CurveRegular` replaced by `CurveRegularTx` — unit
+        -- reserves, and no overshoot of the re-quote when THIS transaction is a partial close of a short); the older, global
+        -- `SideOK` is counted next to it
+        let sfOld := Perp.Spec.Monitor.sideFails h.last.w env sender funds tx
+        let acc := if sfOld.isEmpty then acc.hypCount "steps:in-domain-of-the-global-SideOK" else acc
+        let sf := Perp.Spec.MonitorTx.sideFailsTx h.last.w env sender funds tx
         if !sf.isEmpty then acc.hypCount s!"steps:outside(side:{sf.headD ""})" else
         let acc := acc.hypCount "steps:in-theorem-domain"
         let acc := acc.hypCount s!"steps:in-theorem-domain:{kind}:{if ok then "ok" else "err"}"
